@@ -735,8 +735,8 @@ def r20_13(chk):
     m = chk.repo.module("util/table.py")
     n = 0
     for q, fn in m.all_functions():
-        if "columns" not in params_of(fn):
-            continue
+        if "columns" not in params_of(fn) or q.split(".")[-1].startswith("_"):
+            continue  # public methods only: their `columns` is documented as a name or a series of names
         iters = [x for x in walk_no_nested(fn) if isinstance(x, (ast.For, ast.comprehension)) and isinstance(x.iter, ast.Name) and x.iter.id == "columns"]
         if not iters:
             continue
